@@ -56,3 +56,95 @@ Print Assumptions C18_set_frame.
 Theorem C18_set_wf : forall name v d, wf_value (VObj d) = true -> wf_value v = true -> wf_value (VObj (doc_set name v d)) = true.
 Proof. exact doc_set_wf. Qed.
 Print Assumptions C18_set_wf.
+
+(* ---- the last clause: a struct converted to a document and unmarshalled back is unchanged (Model/Unmarshal.v, Spec/UnmarshalSpec.v,
+   Proofs/UnmarshalProofs.v). Domain: rt_ty (names distinct, embedded structs untagged, ...), type_ok (what JSON reproduces exactly) and
+   rt_extra (no embedded map types, no omitempty on pointers to pointers/interfaces, no unexported field named like the json name of an
+   exported one): each exclusion is justified by a _refuted witness that also fails on the real code ---- *)
+From Coq Require Import Permutation String Ascii.
+Local Open Scope string_scope.
+From Clover Require Import UnmarshalSpec UnmarshalProofs.
+Theorem C18_normalize_total_on_typed_structs : forall fs g, rt_ty (TyStruct fs) = true -> type_ok (TyStruct fs) g = true ->
+  exists d, normalize g = NOk (VObj d).
+Proof. exact normalize_typed_struct. Qed.
+Print Assumptions C18_normalize_total_on_typed_structs.
+
+Theorem C18_unmarshal_roundtrip : forall fs g d,
+  rt_ty (TyStruct fs) = true -> rt_extra (TyStruct fs) = true ->
+  type_ok (TyStruct fs) g = true -> normalize g = NOk (VObj d) ->
+  exists g', unmarshal (TyStruct fs) d = UOk g' /\ type_ok (TyStruct fs) g' = true /\ normalize g' = NOk (VObj d).
+Proof. exact unmarshal_roundtrip. Qed.
+Print Assumptions C18_unmarshal_roundtrip.
+
+Theorem C18_unmarshal_roundtrip_all_types : forall t g v n m,
+  rt_ty t = true -> rt_extra t = true -> type_ok t g = true -> normalize g = NOk v ->
+  (tdepth t <= n)%nat -> (vdepth v <= m)%nat ->
+  exists g', jdecode n t (rename_value m t v) = UOk g' /\ type_ok t g' = true /\ normalize g' = NOk v.
+Proof. exact jdecode_rename_roundtrip. Qed.
+Print Assumptions C18_unmarshal_roundtrip_all_types.
+
+Theorem C18_rename_order_irrelevant : forall fields o o',
+  NoDup (map fst o) -> Permutation o o' ->
+  NoDup (map (fun kv => match rename_lookup fields (fst kv) with Some k' => k' | None => fst kv end) o) ->
+  rename_obj fields o = rename_obj fields o'.
+Proof. exact rename_obj_order_irrelevant. Qed.
+Print Assumptions C18_rename_order_irrelevant.
+
+Theorem C18_roundtrip_example_in_domain : rt_ty ex_ty = true /\ type_ok ex_ty ex_g = true.
+Proof. exact rt_example_in_domain. Qed.
+Print Assumptions C18_roundtrip_example_in_domain.
+
+Theorem C18_roundtrip_example :
+  exists d g', normalize ex_g = NOk (VObj d) /\ unmarshal ex_ty d = UOk g' /\ normalize g' = NOk (VObj d).
+Proof. exact rt_example_roundtrip. Qed.
+Print Assumptions C18_roundtrip_example.
+
+Theorem C18_roundtrip_embedded_map_refuted :
+  rt_ty (TyStruct anonmap_fs) = true /\ rt_extra (TyStruct anonmap_fs) = false /\
+  type_ok (TyStruct anonmap_fs) anonmap_g = true /\
+  normalize anonmap_g = NOk (VObj [(bs "x", VInt 1)]) /\
+  unmarshal (TyStruct anonmap_fs) [(bs "x", VInt 1)] = UOk (GStruct [GField (bs "M") true [] true false (GMap true [])]) /\
+  normalize (GStruct [GField (bs "M") true [] true false (GMap true [])]) = NOk (VObj []).
+Proof. exact anon_map_refuted. Qed.
+Print Assumptions C18_roundtrip_embedded_map_refuted.
+
+Theorem C18_roundtrip_omitempty_pointer_to_nil_refuted :
+  rt_ty (TyStruct omitptr_fs) = true /\ rt_extra (TyStruct omitptr_fs) = false /\
+  type_ok (TyStruct omitptr_fs) omitptr_g = true /\
+  normalize omitptr_g = NOk (VObj [(bs "p", VNil)]) /\
+  unmarshal (TyStruct omitptr_fs) [(bs "p", VNil)] =
+    UOk (GStruct [GField (bs "P") true (bs "p,omitempty") false false (GPtr None)]) /\
+  normalize (GStruct [GField (bs "P") true (bs "p,omitempty") false false (GPtr None)]) = NOk (VObj []).
+Proof. exact omit_ptr_refuted. Qed.
+Print Assumptions C18_roundtrip_omitempty_pointer_to_nil_refuted.
+
+Theorem C18_roundtrip_unexported_name_clash_refuted :
+  rt_ty (TyStruct unexp_fs) = true /\ rt_extra (TyStruct unexp_fs) = false /\
+  type_ok (TyStruct unexp_fs) unexp_g = true /\
+  normalize unexp_g = NOk (VObj unexp_d) /\
+  unmarshal (TyStruct unexp_fs) unexp_d = UOk unexp_g' /\
+  normalize unexp_g' = NOk (VObj unexp_d') /\
+  unexp_d = [(bs "B", VObj [(bs "P", VInt 2); (bs "Q", VInt 1)])] /\
+  unexp_d' = [(bs "B", VObj [(bs "P", VInt 1); (bs "Q", VInt 0)])].
+Proof. exact unexported_rename_refuted. Qed.
+Print Assumptions C18_roundtrip_unexported_name_clash_refuted.
+
+Theorem C18_roundtrip_empty_embedded_pointer_refuted :
+  forallb emb_ptr_ok [TField (bs "Opt") true [] None true (TyPtr opt_ty)] = false /\ rt_ty embptr_ty = false /\
+  struct_level_ok embptr_ty = true /\ rt_extra embptr_ty = true /\ type_ok embptr_ty embptr_g = true /\
+  normalize embptr_g = NOk (VObj []) /\
+  unmarshal embptr_ty [] = UOk embptr_g' /\ type_ok embptr_ty embptr_g' = true /\
+  normalize embptr_g' = NOk (VObj [(bs "Opt", VNil)]).
+Proof. exact emb_ptr_refuted. Qed.
+Print Assumptions C18_roundtrip_empty_embedded_pointer_refuted.
+
+Theorem C18_roundtrip_casefold_refuted :
+  struct_level_ok casefold_ty = false /\ rt_ty casefold_ty = false /\ rt_extra casefold_ty = true /\
+  type_ok casefold_ty casefold_g = true /\
+  normalize casefold_g = NOk (VObj casefold_d) /\ unmarshal casefold_ty casefold_d = UUndet.
+Proof. exact casefold_refuted. Qed.
+Print Assumptions C18_roundtrip_casefold_refuted.
+
+Theorem C18_roundtrip_needs_the_extra_domain_refuted : ~ U2_unrestricted.
+Proof. exact unmarshal_roundtrip_unrestricted_refuted. Qed.
+Print Assumptions C18_roundtrip_needs_the_extra_domain_refuted.
